@@ -370,6 +370,7 @@ func init() {
 		nCuts, nFaults := 0, 0
 		// (1) every cut offset: exactly the completely transferred items, then an EOF-class error
 		for _, cut := range offsets(f, c.Tier) {
+			rp.Alive()
 			for _, seg := range []string{"whole", "one", "whole+eof"} {
 				if seg == "one" && len(f.wire) > 6000 && cut%7 != 0 {
 					continue
@@ -410,6 +411,7 @@ func init() {
 				step = calls / 400
 			}
 			for k := 0; k < calls; k += step {
+				rp.Alive()
 				s := transport.NewStream()
 				s.Seg = transport.SegmenterByName(seg, int64(c.Seed)+11)
 				s.Write(f.wire)
@@ -443,6 +445,7 @@ func init() {
 			step = wcalls / 300
 		}
 		for k := 0; k < wcalls; k += step {
+			rp.Alive()
 			s := transport.NewStream()
 			sent := &transport.ErrInjected{What: fmt.Sprintf("write call %d", k), Inner: io.ErrShortWrite}
 			s.FailWrite(k, sent)
